@@ -16,6 +16,8 @@ CONSTANTS
   TsTypes = {}
   JsonAttr = FALSE
   Emit = TRUE
+  OptIsDynamic = FALSE
+  OptSkipDynamic = FALSE
   Edits = TRUE
 INVARIANT NoPendingInv
 INVARIANT C19ReloadInv
